@@ -11,7 +11,7 @@ import math
 import numpy as np
 
 from ..core import import_library
-from ..probe import Probe, Reach
+from ..probe import Probe, Reach, plain_function
 
 WORKERS = {"quick": 1, "thorough": 16}
 nan = math.nan
@@ -72,6 +72,7 @@ class CascadeMonitor:
         else:
             self.raw, self.raw_exc = (np.array(result, dtype=float, copy=True) if result is not None else None), None
             self.raw_type = type(result).__name__
+            self.raw_object = result
             self.ctx.hit(f"raw_type:{type(result).__name__}{'' if not isinstance(result, np.ndarray) else result.ndim}")
 
     def _before(self, args, kwargs):
@@ -130,6 +131,15 @@ class CascadeMonitor:
         if self.raw is None:
             ctx.hit("skipped:raw defuzzified value not observed (defuzzifier class unknown to the hooks)")
             return
+        # the object the defuzzifier returned belongs to the defuzzifier: the cascade must work on its own copy
+        obj = getattr(self, "raw_object", None)
+        if isinstance(obj, np.ndarray):
+            ctx.hit("law:defuzzifier result left untouched")
+            now = np.asarray(obj, dtype=float)
+            if now.shape != self.raw.shape or not bool(np.all((now == self.raw) | (np.isnan(now) & np.isnan(self.raw)))):
+                ctx.violation("the cascade modifies the array returned by the defuzzifier in place", dict(case, returned=self.raw, now=now), self.raw, now)
+            elif isinstance(ov.value, np.ndarray) and np.shares_memory(ov.value, obj):
+                ctx.violation("the output value shares memory with the array returned by the defuzzifier", case, "a copy", "a view")
         raw_rows = rows(self.raw)
         last = rows(st["value"])[-1]
         exp = cascade(raw_rows, last, lp, default, lr, lo, hi)
@@ -173,11 +183,20 @@ def make_scripted(fl):
 
         def __init__(self):
             self.queue = []
+            self.keep = False
+            self.buffer = None
 
         def defuzzify(self, term, minimum=nan, maximum=nan):
             v = self.queue.pop(0)
             if isinstance(v, Exception):
                 raise v
+            if self.keep and isinstance(v, np.ndarray):
+                # reuse the output buffer when the shape allows (as a caching defuzzifier would)
+                if self.buffer is not None and self.buffer.shape == v.shape:
+                    self.buffer[...] = v
+                else:
+                    self.buffer = v
+                return self.buffer
             return v
 
     return Scripted
@@ -223,7 +242,7 @@ def run(ctx):
     ctx.assumptions += ["raw defuzzified value = what Defuzzifier.defuzzify returned (copied at return)", "exact comparison (the cascade only copies and clips)"]
     Scripted = make_scripted(fl)
     OV = fl.OutputVariable
-    funcs = {"OutputVariable.defuzzify": OV.defuzzify, "OutputVariable.clear": OV.clear, "Variable.value.setter": fl.Variable.__dict__["value"].fset}
+    funcs = {"OutputVariable.defuzzify": OV.defuzzify, "OutputVariable.clear": OV.clear, "Variable.value.setter": plain_function(fl.Variable, "value")}
     with Reach(funcs) as reach, Probe() as probe:
         mon = CascadeMonitor(ctx, fl)
         mon.install(probe, extra_classes=[Scripted])
@@ -277,7 +296,9 @@ def run(ctx):
             cfg = rnd.choice(cfgs)
             lo = rnd.choice([0.0, -2.5, 1.0])
             hi = lo + rnd.choice([1.0, 0.5, 10.0])
-            default = cfg[1] if math.isnan(cfg[1]) else rnd.choice([lo + 0.25 * (hi - lo), hi + 1.5, lo - 0.5, lo, hi])
+            default = cfg[1] if math.isnan(cfg[1]) else rnd.choice([lo + 0.25 * (hi - lo), hi + 1.5, lo - 0.5, lo, hi, math.inf, -math.inf])
+            if math.isinf(default):
+                ctx.hit("default:infinite")
             shape = rnd.choice(["finite", "finite", "left-open", "right-open", "unbounded"])
             if shape in ("left-open", "unbounded"):
                 lo = -math.inf
@@ -285,6 +306,7 @@ def run(ctx):
                 hi = math.inf
             ctx.hit(f"range:{shape}")
             d = Scripted()
+            d.keep = rnd.random() < 0.3  # a defuzzifier that keeps the array it returned and returns the same object again
             ov = OV("o", minimum=lo, maximum=hi, lock_previous=cfg[0], default_value=default, lock_range=cfg[2], defuzzifier=d)
             hist = []
             for _ in range(rnd.randrange(1, 6)):
@@ -314,7 +336,7 @@ def run(ctx):
         reach.report(ctx)
     ctx.exhaustive = True
     ctx.extra["exhaustive_space"] = f"4^n sequences (n<=3 fully, n<={L} with sampled forms/faults) x 2^(n-1) splits x 12 settings x 4 result forms x failure at each call x clear"
-    ctx.require("hook:OutputVariable.defuzzify", "hook:OutputVariable.clear", "event:defuzzified:batch", "event:defuzzified:scalar", "event:defuzzifier_raised", "event:disabled", "event:clear", "piece:clipped", "piece:kept", "range:left-open", "range:right-open", "range:unbounded")
+    ctx.require("hook:OutputVariable.defuzzify", "hook:OutputVariable.clear", "event:defuzzified:batch", "event:defuzzified:scalar", "event:defuzzifier_raised", "event:disabled", "event:clear", "piece:clipped", "piece:kept", "range:left-open", "range:right-open", "range:unbounded", "default:infinite", "law:defuzzifier result left untouched")
     for lp in (0, 1):
         for d in ("nan", "in", "out"):
             for lr in (0, 1):
